@@ -1,6 +1,8 @@
 import Tengo.Sexp
 import Tengo.Model.VM
 import Tengo.Model.VerifyProg
+import Tengo.Model.RelocCheck
+import Tengo.Model.Optimizer
 import Tengo.Drivers.C01
 /-!
 `(vm <fuel> <keep> <maxAllocs> <nglobals> ((idx <value>)…) (<const>…) <fn>)` with
@@ -113,6 +115,65 @@ def handleVerifyProg : List Sexp → String
     | _, _ => "bad-op args"
   | _ => "bad-op"
 
-def handlers : List (String × (List Sexp → String)) := [("vm", handleVM), ("verifyprog", handleVerifyProg)]
+/-- Untrusted position table of one function for the relocation check: the identity when the bodies are
+equal, otherwise old ↦ new offsets of the instructions the optimizer model keeps. -/
+def relocTable (twin opt : Array UInt8) : List (Nat × Nat) :=
+  match Tengo.Model.decode twin.toList with
+  | none => []
+  | some is =>
+    if twin == opt then is.map (fun i => (i.pos, i.pos))
+    else (Tengo.Model.Optimizer.posMap (Tengo.Model.Optimizer.kept is)).filter (fun pq => pq.2 < opt.size)
+
+/-- The second program is the first one with other function bodies (value constants are compared as
+written, function constants by their frame layout). -/
+def sameButBodies : List Sexp → List Sexp → Bool
+  | [], [] => true
+  | .list [.atom "v", v] :: cs, .list [.atom "v", v'] :: cs' => v == v' && sameButBodies cs cs'
+  | c :: cs, c' :: cs' =>
+    (match readFn c, readFn c' with
+     | some f, some f' => f.numLocals == f'.numLocals && f.numParams == f'.numParams && f.varargs == f'.varargs
+     | _, _ => false) && sameButBodies cs cs'
+  | _, _ => false
+
+/-- `(reloc (<const>…) <fn> (<const'>…) <fn'>)`: is the second program the first with every function
+relocated (`checkReloc`, sound by `Tengo.Proofs.VMRelocCheck.checkReloc_sound`)? →
+`ok <#functions> <#positions> <#moved>` | `fail <function index>` | `differ` (not the same program up to
+function bodies). -/
+def handleReloc : List Sexp → String
+  | [.list cs, mainFn, .list cs', mainFn'] =>
+    match readFn mainFn, readFn mainFn' with
+    | some main, some main' =>
+      if !(sameButBodies cs cs' && main.numLocals == main'.numLocals && main.numParams == main'.numParams
+            && main.varargs == main'.varargs) then "differ"
+      else
+      match (readConsts cs).run {} with
+      | .ok (some consts, _) =>
+        let (code, _) := initFobjs { main := main, consts := consts.toArray }
+        let bodies : Array (Array UInt8) :=
+          (main'.insts :: cs'.map (fun c => match readFn c with | some f => f.insts | none => #[])).toArray
+        let b : Nat → Array UInt8 := fun idx => bodies[idx]?.getD #[]
+        let tabs : Array (List (Nat × Nat)) := (List.range (code.consts.size + 1)).toArray.map (fun idx =>
+          match code.fn idx with
+          | some f => relocTable f.insts (b idx)
+          | none => [])
+        let tab : Nat → List (Nat × Nat) := fun idx => tabs[idx]?.getD []
+        if checkReloc code b tab then
+          let nfn := (List.range (code.consts.size + 1)).filter (fun idx => (code.fn idx).isSome) |>.length
+          let npos := tabs.foldl (fun n t => n + t.length) 0
+          let moved := tabs.foldl (fun n t => n + (t.filter (fun pq => pq.1 != pq.2)).length) 0
+          s!"ok {nfn} {npos} {moved}"
+        else
+          match (List.range (code.consts.size + 1)).find? (fun idx =>
+              match code.fn idx with
+              | some f => !checkFnReloc f (b idx) (tab idx)
+              | none => false) with
+          | some idx => s!"fail {idx}"
+          | none => "fail"
+      | _ => "bad-op consts"
+    | _, _ => "bad-op args"
+  | _ => "bad-op"
+
+def handlers : List (String × (List Sexp → String)) :=
+  [("vm", handleVM), ("verifyprog", handleVerifyProg), ("reloc", handleReloc)]
 
 end Tengo.Drivers.VM
